@@ -295,7 +295,38 @@ func runC19(c *Ctx) {
 		c.fanOutAll()
 	})
 
-	c.rule("C19.V1", "NotificationsSinceHeight: the backlog bound is filterHeaderTip read under newFilterHeadersMtx, and the backlog covers height+1 .. bestHeight in increasing order with the header fetched for each height", func() {
+	c.rule("C19.V1", backlogBoundDoc, func() { c.backlogBound() })
+}
+
+// mustFollowOptQuiet: every path from the starts reaches b before an exit
+// (no obligation recorded).
+func (c *Ctx) mustFollowOptQuiet(fn *ssa.Function, starts []start, b Sel) bool {
+	okv := len(starts) > 0
+	for _, s := range starts {
+		ir.WalkCtx(s.b, s.idx, s.pred, nil, func(in ssa.Instruction) bool {
+			if b(in) {
+				return false
+			}
+			if isExit(in) {
+				if r := in.(*ssa.Return); len(r.Results) > 0 && !ir.IsNil(ir.RetVal(r, len(r.Results)-1)) {
+					return false // error exit: the mutation's later steps failed
+				}
+				okv = false
+				return false
+			}
+			return true
+		})
+	}
+	return okv
+}
+
+const backlogBoundDoc = "NotificationsSinceHeight: the backlog bound is filterHeaderTip read under newFilterHeadersMtx, and the backlog covers height+1 .. bestHeight in increasing order with the header fetched for each height"
+
+// backlogBound: see backlogBoundDoc (shared by C19.V1 and C11.V2).
+func (c *Ctx) backlogBound() {
+	bm := func(f string) *types.Var { return c.field("neutrino", "blockManager", f) }
+	bhs := func(m string) *types.Func { return c.method("headerfs", "BlockHeaderStore", m) }
+	_, _ = bm, bhs
 		fn := c.fn(fnSince)
 		res := c.lockResults()
 		key := lockKey{bm("newFilterHeadersMtx")}
@@ -339,27 +370,4 @@ func runC19(c *Ctx) {
 			okLoop = init && bound && same
 		}
 		c.verdict(okLoop, c.nm(fn)+" | backlog = connected(header@i, i) for i = height+1 .. filterHeaderTip", c.P.Pos(fn.Pos()), "loop bounds and payload as tabled", "the backlog loop does not cover exactly height+1 .. filterHeaderTip with matching header and height")
-	})
-}
-
-// mustFollowOptQuiet: every path from the starts reaches b before an exit
-// (no obligation recorded).
-func (c *Ctx) mustFollowOptQuiet(fn *ssa.Function, starts []start, b Sel) bool {
-	okv := len(starts) > 0
-	for _, s := range starts {
-		ir.WalkCtx(s.b, s.idx, s.pred, nil, func(in ssa.Instruction) bool {
-			if b(in) {
-				return false
-			}
-			if isExit(in) {
-				if r := in.(*ssa.Return); len(r.Results) > 0 && !ir.IsNil(ir.RetVal(r, len(r.Results)-1)) {
-					return false // error exit: the mutation's later steps failed
-				}
-				okv = false
-				return false
-			}
-			return true
-		})
-	}
-	return okv
 }
